@@ -1,10 +1,12 @@
 /-
   Driver for the SFTP server dispatcher model.  Request:
     srv <t> <id> <hk f|d|n> <ok 0|1> <raises 0|1> <ext c|p|o> <empty 0|1> <cf bh|na|sf|sb|rf|ok>
-  Reply: one token per response packet, `type:id:code` with code = f<n> (fixed by the dispatcher) | cb (the
+    ldi <read_aheads> <entries per answer> <entries>   → done <yielded> | hang <yielded>   (listdir_iter rounds)
+  Reply (srv): one token per response packet, `type:id:code` with code = f<n> (fixed by the dispatcher) | cb (the
   callback's code) | - (not a status packet); packets separated by spaces.
 -/
 import PV.Model.SftpServer
+import PV.Model.ListdirIter
 import PV.Base.DriverIO
 open PV PV.SftpServer
 
@@ -29,6 +31,14 @@ def step (line : String) : String :=
     | some t, some id, some hk, some ok, some rs, some ext, some em, some cf =>
       " ".intercalate ((serve t id ⟨hk, ok, rs, ext, em, cf⟩).map fun p => s!"{p.1}:{p.2.1}:" ++ showCode p.2.2)
     | _, _, _, _, _, _, _, _ => "bad-op"
+  | ["ldi", k, per, n] =>
+    match k.toNat?, per.toNat?, n.toNat? with
+    | some k, some per, some n =>
+      match PV.ListdirIter.listdirIter ⟨k, per, PV.Generated.C30.listdirIterResetsBatch⟩ n (n + 2) with
+      | .done y => s!"done {y}"
+      | .hang y => s!"hang {y}"
+      | .fuel => "fuel"
+    | _, _, _ => "bad-op"
   | _ => "bad-op"
 
 def main : IO Unit := lineLoop step
